@@ -663,6 +663,7 @@ Proof.
       * rewrite (pc_of_set _ _ _ _ E). simpl. exists o. split; auto.
         apply Rel_pc; auto; rewrite Epc; try discriminate; auto.
       * unfold pc_of, set_pc. simpl. rewrite (nth_error_upd_eq _ _ _ _ E). simpl.
+        rewrite (rI _ _ R i x E) by (rewrite Epc; reflexivity).
         eexists; split; [reflexivity|].
         assert (R1 : Rel (set_pc s i x PRegd) o).
         { apply Rel_pc; auto; rewrite Epc; try discriminate; auto. }
